@@ -216,7 +216,55 @@ def drv_parser(job, inputs, work):
     return False, report + "\n(no native oracle for this scenario kind: the dump is attached)"
 
 
-DRIVERS = {"numget": drv_numget, "getbool": drv_getbool, "parser": drv_parser}
+def drv_merge(job, inputs, work):
+    """C03: rebuild both lists natively (files for parser-style lists, setters
+    otherwise), merge with the real library under ASan, compare with the
+    reference merge."""
+    exe, err = build_native("replay/merge.c", work)
+    if not exe:
+        return False, "native build failed: " + err[-800:]
+    D = {}
+    for d in job.harness_defines:
+        k, _, v = d[2:].partition("=")
+        D[k] = v.strip('"')
+    bg, og = D.get("BG", ""), D.get("OG", "")
+    bk = "".join("xy"[(intval(inputs.get("in_bk[%dl]" % i)) or 0) & 1] for i in range(len(bg)))
+    ok = "".join("xy"[(intval(inputs.get("in_ok[%dl]" % i)) or 0) & 1] for i in range(len(og)))
+    rc, out = run_exe(exe, [bg or "-", og or "-", bk or "-", ok or "-", D.get("B_KIND", "0"), D.get("O_KIND", "0"), work], work)
+    head = "base sections=%r keys=%r; override sections=%r keys=%r\n" % (bg, bk, og, ok)
+    if rc != 0 or "AddressSanitizer" in out or "runtime error" in out:
+        return True, head + out[-3000:]
+    gname = {"0": "_none_", "1": "A", "2": "B"}
+    B = [(gname[g], k, "b%d" % i) for i, (g, k) in enumerate(zip(bg, bk))]
+    O = [(gname[g], k, "o%d" % i) for i, (g, k) in enumerate(zip(og, ok))]
+    M = [tuple(l.split("|")[1:4]) for l in out.splitlines() if l.startswith("M|")]
+    want = {}
+    for g, k, v in B:
+        want.setdefault((g, k), v)
+    seen = set()
+    for g, k, v in O:
+        if (g, k) not in seen:
+            want[(g, k)] = v
+            seen.add((g, k))
+    got = {}
+    for g, k, v in M:
+        got.setdefault((g, k), v)
+    problems = []
+    if got != want:
+        problems.append("visible values differ: want %r got %r" % (want, got))
+    if len(M) != len(want):
+        problems.append("%d entries for %d (section,key) pairs" % (len(M), len(want)))
+    posB = [[(g, k) for g, k, v in M].index((g, k)) for g, k, v in B if (g, k) in got]
+    if posB != sorted(posB):
+        problems.append("base keys reordered")
+    Bn = [tuple(l.split("|")[1:4]) for l in out.splitlines() if l.startswith("B|")]
+    On = [tuple(l.split("|")[1:4]) for l in out.splitlines() if l.startswith("O|")]
+    if Bn != B or On != O:
+        problems.append("an input changed")
+    return bool(problems), head + "; ".join(problems) + "\n" + out[-2000:]
+
+
+DRIVERS = {"numget": drv_numget, "getbool": drv_getbool, "parser": drv_parser, "merge": drv_merge}
 
 
 def replay_file(path):
